@@ -3,3 +3,18 @@ int vsimul_marker () { return 42; }
 mixed c18_via (mixed ob, string fn, int k) {
   return call_other(ob, fn, k);
 }
+
+// logs what the efun call_stack() returned in the caller's frame (function names, programs, objects; innermost first)
+private string c18_join (mixed *a) {
+  int i;
+  string s;
+  s = "";
+  if (!arrayp(a) || !sizeof(a)) return "-";
+  for (i = 0; i < sizeof(a); i++)
+    s += (i ? "," : "") + (objectp(a[i]) ? file_name(a[i]) : (stringp(a[i]) ? a[i] : "0"));
+  return s;
+}
+int c18_cs (mixed *fns, mixed *progs, mixed *obs) {
+  debug_message("VL cst fns=" + c18_join(fns) + " progs=" + c18_join(progs) + " obs=" + c18_join(obs));
+  return 10;
+}
